@@ -4,6 +4,7 @@ package main
 
 import (
 	"go/ast"
+	"go/constant"
 	"bufio"
 	"bytes"
 	"fmt"
@@ -217,6 +218,38 @@ func (g *Gen) run() {
 
 	outState := map[*ssa.BasicBlock]*State{}
 	edgeCond := map[[2]*ssa.BasicBlock]string{}
+	// blocks behind a compile-time-constant branch (runtime.GOOS == "windows" folds to false here) are statically dead:
+	// covers are not demanded there
+	g.staticDead = map[*ssa.BasicBlock]bool{}
+	for _, b := range order {
+		if b.Index == 0 {
+			continue
+		}
+		alive := false
+		for _, p := range b.Preds {
+			if isBack(p, b) {
+				continue
+			}
+			if g.staticDead[p] {
+				continue
+			}
+			if iff, ok := p.Instrs[len(p.Instrs)-1].(*ssa.If); ok {
+				if c, ok := iff.Cond.(*ssa.Const); ok && c.Value != nil {
+					taken := p.Succs[1]
+					if constant.BoolVal(c.Value) {
+						taken = p.Succs[0]
+					}
+					if taken != b {
+						continue
+					}
+				}
+			}
+			alive = true
+		}
+		if !alive {
+			g.staticDead[b] = true
+		}
+	}
 
 	evalInvs := func(hi *headInfo, h *ssa.BasicBlock, st *State) []Term {
 		var out []Term
@@ -1027,6 +1060,16 @@ func solve(g *Gen, fname string) ([]result, bool) {
 		}
 		if o.Kind == "cover" {
 			// a cover must FAIL: "false" is provable only on a path whose assumptions are contradictory
+			if g.ctr != nil && g.ctr.Unreachable[o.Name] {
+				// the contract names this return as dead on purpose: it must indeed be dead, and is then accepted
+				if s == "unsat" {
+					res = append(res, result{ob: o, status: "reachable", solver: "declared-unreachable"})
+				} else {
+					o.Name = o.Name + "/declared_unreachable_but_reachable"
+					res = append(res, result{ob: o, status: "dead-path", solver: "z3-4.8.12/incremental", smt: standalone[i]})
+				}
+				continue
+			}
 			if s == "unsat" {
 				res = append(res, result{ob: o, status: "dead-path", solver: "z3-4.8.12/incremental", smt: standalone[i]})
 			} else {
